@@ -37,6 +37,27 @@ def harness(ctx, casefile, tier, seed):
             stuck += 1
             continue
         break
+    # free-running race stream (outside synctest, real parallelism): Subscribe / Emitter() racing with the call
+    # that makes the node droppable, wildcard Subscribe racing with the Close of the only other wildcard
+    # subscription; a miss is written as a wire line that the monitor rejects
+    part = casefile + ".race"
+    for p in (part, part + ".cov"):
+        if os.path.exists(p):
+            os.remove(p)
+    rrc, rout = ctx.go_test(PKG, "TestVerifC15Race$", OVERLAY,
+                            env={"VERIF_OUT": part, "VERIF_TIER": tier, "VERIF_SEED": str(seed)}, timeout=600)
+    if os.path.exists(part):
+        with open(part) as f, open(casefile, "a") as g:
+            for line in f:
+                g.write(line)
+    for k, v in read_cov(part).items():
+        cov[k] = cov.get(k, 0) + v
+    rcov = read_cov(part)
+    if any(k.startswith("race.miss") for k in rcov):
+        ctx.notes.append("race stream: an event emitted after the racing Subscribe returned was not delivered (%s after %d iterations)"
+                         % (", ".join(k for k in rcov if k.startswith("race.miss")), rcov.get("race.iterations", 0)))
+    if rrc != 0 and rc == 0:
+        rc, out = rrc, rout
     with open(casefile + ".cov", "w") as f:
         for k in sorted(cov):
             f.write("%s %d\n" % (k, cov[k]))
@@ -77,7 +98,8 @@ RULES = {1: "received a value that was never emitted", 2: "received an event of 
          9: "Emit returned although the subscriber's channel was full (dropped)",
          10: "consumer waiting but an emitted event / the retained event was not delivered",
          11: "panic", 12: "an operation never returned (deadlock)",
-         13: "a call is blocked at quiescence although no stalled (unread, unclosed) subscription it may wait for exists (deadlock)"}
+         13: "a call is blocked at quiescence although no stalled (unread, unclosed) subscription it may wait for exists (deadlock)",
+         14: "Close of a typed subscription returned but its channel is not closed: a receive is still unanswered at quiescence (a Close call returned before the subscription was detached)"}
 
 
 def parse(t):
@@ -206,6 +228,8 @@ if __name__ == "__main__":
         "types of one Subscribe call are distinct; event values are distinguishable (unique ids); one Close call per subscription (closeOnce not modelled)",
         "no deadlock is proved as a state-predicate progress theorem (c15_no_deadlock: every reachable state with an unfinished operation has an enabled non-stimulus step, given that every full open channel has a receive pending or is being closed), not as liveness under fairness (DESIGN.md section 10)",
         "monitor-accepts-model is a theorem (c15_monitor_accepts_model): for every well-formed configuration and every DISCIPLINED schedule (stimuli only at quiescent states: what the harness does and what conform_case searches, c15_accepted_run_is_disciplined) the monitor run on the WIRE line of the run (decode/encode round trip proved: c15_wire_round_trip, c15_monitor_case_on_runs) answers []; proved clause by clause with the monitor's own functions: rules 1-10 (c15_monitor_rule1..10; rules 4, 9, 10 use the discipline), 11 (no panic label in a model trace), 12 (from rule 13, under final_ok: quiescent end state, every returned Subscribe closing, no Subscribe still in flight - the last conjunct excludes exactly the known crossing-Subscribe deadlock), 13 (c15_monitor_rule13_accepts_model). Hypotheses of the theorem that are not proved of the harness: that the real harness only writes a stimulus at a quiescent point (its settle loop reads goroutine states) and writes the end marker only in a final_ok situation. Emitter.Close/closed-emitter error path; node drop semantics of `stateful` (DESIGN.md section 9 item 12: the monitor demands the retained event only while a stateful emitter of the type stayed open)",
+        "operation alphabet: Emitter.Close is exercised as two sequential calls (the second must be a no-op reporting an error), Subscription.Close as two concurrent calls plus a later third one, the operation counting as returned when ANY call has returned; the model has one closer thread per emitter / subscription, i.e. it assumes that a repeated or concurrent Close is once-like (returns no earlier than the first one's body); with rules 4 and 14 this is the clause 'after any Close call has returned nothing more is delivered and the channel is closed'",
+        "interleavings inside withNode / tryDropNode / wildcard addSink / removeSink are in the LTS at the granularity of the code: bus-lock section (lookup, pending++) / gap / node-lock section (pending--, append) are separate steps (SBus, SApp; emnew 1, 2), tryDropNode checks pending and TryLock in one step, nSinks.Add(1) / lock announce / append / unlock and nSinks.Add(-1) / lock / delete are separate steps (SW1-SW3, KW1-KW3), the emit fast path reads nSinks in its own step (EWChk); theorems c15_node_not_dropped_before_lock, c15_node_registration and the wildcard counting invariant behind c15_must_deliver cover them for every schedule. The synctest harness cannot schedule two calls inside each other's gaps, so a free-running race stream (TestVerifC15Race, outside synctest, GOMAXPROCS >= 4, 40000 iterations quick / 300000 thorough, deadline) races Subscribe / Emitter() against the call that makes the node droppable and a wildcard Subscribe against the Close of the only other wildcard subscription, then requires a later Emit to reach the new subscription; a miss is reported as one sequential wire line (best-effort order) that the monitor rejects (rule 10)",
         "exactly-once is stated per occurrence of the sink in n.sinks; that a subscription is listed at most once per node follows from distinct types per Subscribe call (hypothesis of the theorem reading, not proved: c15_nothing_before_join / c15_stateful_replay_first take `~ In n (snodes c)`)",
         "harness quiescence detection reads goroutine states (runtime.Stack) inside the synctest bubble because synctest.Wait does not treat sync.Mutex waits as durable blocks; monitor rules 4, 9, 10 rely on that quiescence between stimuli",
     ]
